@@ -320,7 +320,9 @@ def run_history(task):
             else:
                 at2 = {a: SymBool(prep.vars.atom(a)) for a in prep.sym_atoms}
             state2, _ = world.make_state(at2, fl2)
-            if task.get("omit") and task["omit"] in keys:
+            if task.get("omit") == "*":
+                state.state_fluents.clear()
+            elif task.get("omit") and task["omit"] in keys:
                 del state.state_fluents[keys[task["omit"]]]
             h = History(world, state, task, state2)
             del WRITES[:]
@@ -420,7 +422,9 @@ def replay_history(task, state):
     fl2.update(state.get("fluents2", {}))
     at2 = state.get("atoms2_true") if task.get("state2_atoms") == "independent" else state.get("atoms_true", [])
     s2, _ = callsym.concrete_state(world, prep, {a: True for a in (at2 or [])}, fl2)
-    if task.get("omit") and task["omit"] in keys:
+    if task.get("omit") == "*":
+        s.state_fluents.clear()
+    elif task.get("omit") and task["omit"] in keys:
         del s.state_fluents[keys[task["omit"]]]
     h = History(world, s, task, s2)
 
@@ -515,6 +519,13 @@ def tasks_for(tier, seed):
                     tasks.append(dict(domain_text=text, action="act", args=args_list[0], objects=dict(G.OBJECTS), mode="apply",
                                       label=f"[first state omits {omit}] pre {sexpr.render(pre)} eff {sexpr.render(eff)}", c1=c1, c2=c2,
                                       cap=8, frame_atoms=0, omit=omit, max_paths=400 if tier == "quick" else 4000))
+        # round 20-22: a state that defines NO fluent at all (an early exit on an empty fluent table), the same operator twice
+        if any(w in sexpr.render(eff) for w in ("increase", "decrease", "assign")):
+            for c1, c2 in (("apply_allow", "apply_allow"), ("apply_allow", "second_operator_apply"), ("apply_allow", "reapply_result"),
+                           ("applicable", "apply_allow")):
+                tasks.append(dict(domain_text=text, action="act", args=args_list[0], objects=dict(G.OBJECTS), mode="apply",
+                                  label=f"[state without fluents] pre {sexpr.render(pre)} eff {sexpr.render(eff)}", c1=c1, c2=c2,
+                                  cap=8, frame_atoms=0, omit="*", max_paths=400 if tier == "quick" else 4000))
     # baselines of the pure text calls, one fresh interpreter each
     keys = sorted({(t["domain_text"], tuple(t["args"])) for t in tasks})
     jobs = [(text, args, call) for (text, args) in keys for call in PURE_TEXT_CALLS]
